@@ -1,6 +1,12 @@
 // ask: C04 monitors on a REAL started actor system through the public API, with real goroutines and real time
 // (generous margins): many concurrent Asks with replies, tiny and large timeouts, late replies, askers killed
-// before the reply, PipeTo racing with the completion. No model cases are emitted (monitors only).
+// before the reply, PipeTo racing with the completion, name reuse, asker death with pending Asks racing completions,
+// Asks issued by the asker's own kill processing. No model cases are emitted (monitors only).
+//
+// main.go uses the PUBLIC API only. The two places that look into the system's tables (the leak check at the end and
+// while draining) go through regCounts, implemented in acc_verif.go (build tag verif: add-only accessors injected by
+// overlay) and stubbed in acc_public.go (no tag): when the accessors do not compile against the tree under test, the
+// framework builds this command without the tag and the public-API monitors keep searching for a failing input.
 package main
 
 import (
@@ -12,7 +18,6 @@ import (
 	"time"
 
 	"github.com/kercylan98/vivid"
-	"github.com/kercylan98/vivid/internal/actor"
 	"github.com/kercylan98/vivid/pkg/bootstrap"
 	"github.com/kercylan98/vivid/pkg/log"
 	"github.com/kercylan98/vivid/xverif/lib"
@@ -38,10 +43,12 @@ type askCmd struct {
 const margin = 3 * time.Second
 
 type H struct {
-	o   *lib.Out
-	mu  sync.Mutex
-	n   map[string]int
-	sys *actor.System
+	o  *lib.Out
+	mu sync.Mutex
+	n  map[string]int
+	// registrations that belong to Asks already reported as never completed (they are not counted a second time as leaks)
+	leakedFuts, leakedAgents int
+	sys                      vivid.PrimaryActorSystem
 }
 
 func (h *H) hit(name, detail string) {
@@ -87,12 +94,9 @@ func main() {
 	if f.N > 0 {
 		rounds = f.N
 	}
-	sysI := bootstrap.NewActorSystem(vivid.WithActorSystemLogger(log.NewTextLogger(log.WithLevel(log.LevelError))))
-	sys, ok := sysI.(*actor.System)
-	if !ok {
-		panic("bootstrap.NewActorSystem is not *actor.System")
-	}
+	sys := bootstrap.NewActorSystem(vivid.WithActorSystemLogger(log.NewTextLogger(log.WithLevel(log.LevelError))))
 	h.sys = sys
+	o.Info["accessors"] = accessorsAvailable
 	if err := sys.Start(); err != nil {
 		panic(err)
 	}
@@ -427,6 +431,9 @@ func main() {
 		}
 		wg.Wait()
 	}
+	h.racing(r, f.Tier == "thorough")
+	h.askDuringKill(f.Tier == "thorough")
+	h.entrust()
 	// let the pipes and late replies drain
 	deadline := time.Now().Add(margin)
 	for time.Now().Before(deadline) {
@@ -440,8 +447,8 @@ func main() {
 			}
 			return true
 		})
-		_, futs, agents := actor.XVRegistryCounts(sys)
-		if missing == 0 && futs == 0 && agents == 0 {
+		futs, agents, _, _ := regCounts(sys)
+		if missing == 0 && futs-h.leakedFuts == 0 && agents-h.leakedAgents == 0 {
 			break
 		}
 		time.Sleep(20 * time.Millisecond)
@@ -467,9 +474,8 @@ func main() {
 		}
 	}
 	collMu.Unlock()
-	_, futs, agents := actor.XVRegistryCounts(sys)
-	if futs != 0 || agents != 0 {
-		h.hit("registration-left", fmt.Sprintf("all Asks completed, but actorContexts still holds %d futures and futureAgents %d entries: %v", futs, agents, actor.XVFuturePaths(sys)))
+	if futs, agents, paths, ok := regCounts(sys); ok && (futs-h.leakedFuts != 0 || agents-h.leakedAgents != 0) {
+		h.hit("registration-left", fmt.Sprintf("all Asks completed, but actorContexts still holds %d futures and futureAgents %d entries (of which %d / %d belong to the never-completed Asks reported separately): %v", futs, agents, h.leakedFuts, h.leakedAgents, paths))
 	}
 	for k, v := range h.n {
 		o.Stats[k] = v
